@@ -867,11 +867,11 @@ func finish(ch *Check, tier string, seed int64, p *Part, wall time.Duration) int
 	}
 	fmt.Printf("%s tier=%s evaluations=%d distinct_nontrivial=%d states=%d transitions=%d outcomes=%d exhaustive=%v bound=%q known=%d new_violations=%d wall=%.1fs\n",
 		ch.ID, tier, p.Evals, p.Nontrivial, p.States, p.Transitions, len(p.Outcomes), exhaustive, p.Bound, knownSeen, nviol, wall.Seconds())
+	if nviol > 0 {
+		return 1 // confirmed violations decide, whatever else was inconclusive
+	}
 	if len(p.Flaky) > 0 {
 		return 2
-	}
-	if nviol > 0 {
-		return 1
 	}
 	return 0
 }
